@@ -597,8 +597,14 @@ def select(V, pid, cases, rnd):
         # within a size class
         rnd.shuffle(lst)
         lst.sort(key=docsize)
-        keep += lst[:cap]
-        skipped += max(0, len(lst) - cap)
+        mcap = max(cap, loadreplay.ctx()['models'].get(m, {}).get('qcap', 0))
+        if len(lst) > mcap:
+            # half of the budget for the smallest documents, half spread
+            # over the larger ones
+            head, tail = lst[:mcap // 2], lst[mcap // 2:]
+            lst = head + rnd.sample(tail, mcap - len(head))
+            skipped += len(tail) - (mcap - len(head))
+        keep += lst
     V.notes['replay_selection'] = (
         'all accepted documents + all flagged + up to %d rejected documents '
         'per class model; %d rejected documents judged at model level only'
